@@ -289,10 +289,29 @@ func (e *Eval) walk(n parse.Node, dot tval) {
 			e.walk(x.ElseList, dot)
 		}
 		e.pop()
+	case *parse.TemplateNode:
+		// {{template "name" pipeline}}: the associated template runs with dot (and $) bound to the
+		// pipeline's value, in a variable scope of its own
+		sub := templateTrees[e.tmpl][x.Name]
+		if sub == nil || sub.Root == nil {
+			e.fail(n, "template %q is not defined", x.Name)
+			return
+		}
+		var v tval = Nil{}
+		if x.Pipe != nil {
+			v = e.pipeValue(x.Pipe, dot)
+		}
+		saved := e.vars
+		e.vars = []map[string]tval{{"$": v}}
+		e.walk(sub.Root, v)
+		e.vars = saved
 	default:
 		e.fail(n, "unmodelled template node %T", n)
 	}
 }
+
+// templateTrees: per built-in template, every tree its file defines ({{define}} blocks included).
+var templateTrees = map[string]map[string]*parse.Tree{}
 
 func (e *Eval) truth(n parse.Node, v tval) bool {
 	switch x := v.(type) {
